@@ -109,6 +109,9 @@ impl<M: TreeKey + ?Sized, N, const D: usize> NodeIter<M, N, D> {
     ///
     /// This requires moving `self` to ensure `FusedIterator`.
     pub fn root<K: IntoKeys>(mut self, root: K) -> Result<Self, Traversal> {
+        // Indices left below the new root by previous iteration or by a
+        // previous (deeper) root must not become the start position.
+        self.state = [0; D];
         let node = self.state.transcode::<M, _>(root)?;
         self.root = node.depth();
         self.depth = D + 1;
